@@ -59,6 +59,27 @@ CHECKS["C13"] = dict(
     ref="5/C13 and 6",
 )
 
+CHECKS["C02"] = dict(
+    technique="TLA+ table decoders written from the OpenType text (TableCodec.tla) model-checked for inverse laws; batch trace validation by TLC of bytes emitted by the real table encoders for generated contents (independent decode, well-formedness, fontTools decompile, HarfBuzz view)",
+    text="TLC checks that TableCodec's decoders invert trivially correct TLA+ encoders on every content over small alphabets and exports those contents; they and seeded contents crossing every format decision (cmap 0/4/6/12/13/14 incl. > 64k entries and U+FFFF, hmtx trailing runs, loca short/long boundary x padding, simple-glyph flags / short vectors / repeat limit / instruction lengths up to 65535, composite records with every flag, Coverage / ClassDef formats, UTF-16 names, packed tuple points and deltas) are compiled by the real encoders; TLC decodes the emitted bytes with the specification's decoder, checks the well-formedness the OpenType text demands and compares with the content, with fontTools' own decompile and with HarfBuzz's view; kern/post/OS2/fvar/avar/COLR/CPAL/GSUB/GPOS go through compile -> decompile equality of canonical content trees.",
+    note="Trusted: TLC, the transcription of the formats in TableCodec.tla (itself checked by MC_TableCodec), the JSON trace writer. Tables without a TLA+ decoder are compared by canonical TTX content trees (numbers by value, record sets sorted). Named deviations: duplicate 0xFFFF closing segment when U+FFFF is mapped; HarfBuzz reports advances > 32767 modulo 2^16.",
+    ref="5/C02",
+)
+
+CHECKS["C09"] = dict(
+    technique="TLA+ exact-rational semantics of OpenType variation arithmetic (Rat, VarSem, Tent, Model, IUP, VarStoreSem) model-checked on whole lattices; TLC-generated lattices and corpus inputs driven through the real functions with Fraction inputs and the property clauses evaluated by TLC on the code's outputs",
+    text="TLC checks the transcribed case analyses (rebaseTent/_solve, VariationModel supports and delta weights, IUP inference and optimisation, VarStore optimise/prune/subset) against the OpenType region/IUP semantics on whole quarter/half lattices; the same lattices (tents x axis limits x points, TLC-generated master sets, small contours and stores) and corpus designspaces / gvar glyphs / item variation stores are pushed through the real rebaseTent, VariationModel, supportScalar, piecewiseLinearMap, OnlineVarStoreBuilder / VarStoreInstancer / VarStore.optimize / prune_regions / subset_varidxes, iup_delta, iup_delta_optimize and TupleVariation.optimize; float outputs are recovered to exact rationals and TLC evaluates Rebase, MasterExact, Weights, *Neutral and OptimizeWithinTol on them.",
+    note="Trusted: TLC, Rat.tla (checked by MC_Rat), float -> rational recovery on lattice inputs (a residual >= 1e-9 is itself a rejection). Dirac tents and EPSILON-nudged segments bounded explicitly as named deviations.",
+    ref="5/C09",
+)
+
+CHECKS["C11"] = dict(
+    technique="TLA+ meaning of feature-file programs (FeaSem.tla -> OTLSem.tla) model-checked; TLC-enumerated programs compiled by the real feaLib and observed by HarfBuzz and by structural projection, expected shaping computed by TLC from the program text; print/parse fixed point on interned table bytes",
+    text="TLC enumerates feature-file programs from a program-builder machine (classes, lookups and references, lookupflags, script/language, every GSUB and GPOS rule kind in FeaSem's subset) and checks FeaSem/OTLSem internal laws; each program is printed as FEA, compiled with the real addOpenTypeFeaturesFromString, and every input glyph sequence up to length 3 is shaped by HarfBuzz on the compiled bytes and by OTLSem on the decompiled tables; TLC computes Shape(Meaning(program), sequence) from the program alone and requires equality with both. All 163 corpus .fea files go through asFea/parse fixed point and identical-tables clauses; those inside FeaSem's subset also through the shaping judge.",
+    note="Trusted: TLC, the FEA printer (cross-checked by parsing back), HarfBuzz configured for plain OpenType lookup-order semantics (PUA input by glyph id, explicit features/script/language); named shaper convention HBZeroMarks. Corpus files outside FeaSem's subset are skipped and counted for the shaping clause.",
+    ref="5/C11",
+)
+
 NOT_YET = "check not built yet in this round (see DESIGN.md section 10 for the build order)"
 
 
